@@ -61,7 +61,7 @@ func TestC08(t *testing.T) {
 			c.Gen += "/valid"
 		case 3: // drawn step length around the 16-bit boundary and beyond the documented key length
 			L := rapid.OneOf(rapid.IntRange(0, 70000), rapid.IntRange(65000, 66100), rapid.IntRange(131000, 131200)).Draw(t, "L")
-			keys = ladderKeys(L, pickU(t, "place", 4), rapid.SampledFrom([]byte{0x00, 0x61, 0xff}).Draw(t, "fill"))
+			keys = ladderKeys(L, pickU(t, "place", ladderPlacements), rapid.SampledFrom([]byte{0x00, 0x61, 0xff}).Draw(t, "fill"))
 			c.Gen = "ladder"
 			if L > 65530 && L < 65542 {
 				c.Scrib = 1
@@ -109,7 +109,7 @@ func TestC08Ladder(t *testing.T) {
 	}
 	n := 0
 	for _, L := range Ls {
-		for place := 0; place < 4; place++ {
+		for place := 0; place < ladderPlacements; place++ {
 			for mode := 0; mode < 4; mode++ {
 				for dedup := Tri(1); dedup <= 2; dedup++ {
 					for hv := 0; hv < 2; hv++ {
